@@ -54,6 +54,15 @@ def configs(tier, seed):
                                  side="xcube", trio=wtrio[:3], wvals=["3", "1"]))
         if tier == "thorough":
             out.append(C03._base(3, [[]], 2, [1], "sum", weights="none", ignore=True, fact="nan", K=K, fmt="pair", side="xcube", trio=trio))
+    # zero-dimensional array cubes take their own branches in every xfunc (no coordinates): weighted statistics under
+    # both policies, objects re-used for a second calculate
+    for trio, K, wf, wv in ((["stddev:prop", "quantile:ign", "sum:prop"], 1, "pair", ["1/2", "3"]),
+                            (["stddev:ign", "mean:prop", "valid_count:ign"], 2, "array", ["3", "1"]),
+                            (["covariance:prop", "stddev:prop", "mean:ign"], 2, "array", ["1", "2"])):
+        out.append(C03._base(2, [], 1, [], "sum", weights=wf, ignore=False, fact="nan" if K == 2 else "pair", K=K, fmt="nan",
+                             side="xcube", trio=trio, wvals=wv))
+    out.append(C03._base(3, [], 1, [], "sum", weights="none", ignore=False, fact="nan", K=1, fmt="pair", side="xcube",
+                         trio=["stddev:prop", "max:ign", "quantile:prop"]))
     return out
 
 
